@@ -13,6 +13,7 @@ import Homonim.Model.Blocks
 import Homonim.Model.Layout
 import Homonim.Model.WindowIO
 import Homonim.Model.Mask
+import Homonim.Model.Convert
 import Homonim.Lemmas.Geom
 import Mathlib.Algebra.Order.Floor.Ring
 import Mathlib.Data.Rat.Floor
@@ -143,5 +144,27 @@ theorem src_C17_erode_size (kh kw h w : Nat) (m : Nat → Nat → Bool) (r c : N
         let i : Int := (r : Int) - ((cover_erodeSize kh) / 2 : Nat) + di
         let j : Int := (c : Int) - ((cover_erodeSize kw) / 2 : Nat) + dj
         decide (0 ≤ i) && decide (i < h) && decide (0 ≤ j) && decide (j < w) && m i.toNat j.toNat) := rfl
+
+
+/-! ### raster_array.py conversions, writes and reads (C13, C20, C08) -/
+
+/-- `_convert_array_dtype` skips the clip exactly when it cannot matter: if the source type's range does not exceed the
+    target's at either end (the negation of the condition the source states), every value of the source type already lies in
+    the target's range.  (With `and` in place of `or` this is false: one-sided excess would go unclipped.) -/
+theorem src_C13_clip_skipped_soundly (smin smax dmin dmax : Int) (h : convert_clipNeeded smin smax dmin dmax = false)
+    (x : Int) (hx : smin ≤ x ∧ x ≤ smax) : dmin ≤ x ∧ x ≤ dmax := by
+  unfold convert_clipNeeded at h
+  simp only [Bool.or_eq_false_iff, decide_eq_false_iff_not, not_lt] at h
+  omega
+
+/-- `to_rio_dataset`: the write steps the model reads are the ones the source states, in its order - in particular the mask
+    written is that of the block cropped to the window -/
+theorem src_C20_write_steps : writeStepsModel = writeSteps := rfl
+
+/-- `from_rio_dataset`: the internal nodata value is used exactly for masked datasets and datasets without a nodata value -/
+theorem src_C08_read_nodata (isMasked : Bool) (dsNodata : Option Int) :
+    (readNodata isMasked dsNodata).isNone = read_usesInternalNodata isMasked dsNodata.isSome := by
+  unfold readNodata read_usesInternalNodata
+  cases isMasked <;> cases dsNodata <;> rfl
 
 end Homonim
